@@ -7,7 +7,8 @@ from vmon.refs import ripemd160 as RR, murmur3 as RM, b58 as RB
 PROPERTY = "C19"
 LEVEL = "exploration"
 TECHNIQUE = ("differential runtime monitor vs hashlib + from-spec RIPEMD-160 and MurmurHash3/BIP37 references, one worker "
-             "process per RIPEMD-160 configuration (native, PYCOIN_USE_PYTHON_RIPEMD160, simulated OpenSSL without ripemd160)")
+             "process per RIPEMD-160 configuration (native, PYCOIN_USE_PYTHON_RIPEMD160, simulated OpenSSL without ripemd160); "
+             "also called from several threads at once under a 10 microsecond switch interval")
 RULE = ("cases: byte strings of every length 0..300 (zeros / 0xff / random; thorough: several random fills) plus 511..513, "
         "1023..1025, 10^4 (thorough 10^5, 10^6), random lengths to 2,048 biased to 64k+{0,1,54..57,62,63}, through hash160, double_sha256, hash.ripemd160 and contrib.ripemd160 in each "
         "configuration; murmur3 on every length 0..70 and 255..257, 4095..4097, 65535..65537, 70000 x seeds {0, 1, 2^31, "
@@ -42,6 +43,19 @@ RULE = ("cases: byte strings of every length 0..300 (zeros / 0xff / random; thor
         "2**16+100 murmur3 calls on fresh (input, seed) pairs and ONE 36,000-byte Bloom filter receiving 2**16+100 distinct elements "
         "through add_item / add_hash160 / add_spendable against a bit-by-bit model (the element's bits every add, the whole filter "
         "every 1,024 adds and around every power of two). "
+        "SEVERAL THREADS OF ONE PROCESS: one shard per RIPEMD-160 configuration (native, PYCOIN_USE_PYTHON_RIPEMD160, simulated OpenSSL "
+        "without ripemd160) in which 6 (thorough 8) threads released together by a barrier call hash160 / double_sha256 / "
+        "ripemd160(data).digest() / contrib.ripemd160 at the same time, every thread on byte strings no other thread has (3-byte "
+        "thread/index prefix; lengths 20, 32, 33, 65 and 64k+{0,1,54..57,62,63} over 1..4 blocks, native 1..8), each string hashed in "
+        "2..3 rounds; in the native shard a second barrier phase puts every thread in murmur3 (its messages and elements x seeds of "
+        "all classes) and in add_item / add_hash160 / add_spendable on a Bloom filter OF ITS OWN (sizes 1..36,000, 1..50 functions). "
+        "Nothing is shared between the callers. sys.setswitchinterval(1e-5) during the threaded phase (restored afterwards) forces "
+        "frequent thread switches; the threads only store what pycoin returned, the expected values were computed by the references "
+        "before a thread existed and the comparison is made after join - on digests / hashes / filter bytes only, never on time. "
+        "Required per configuration: every operation observed from the threads, completions of different threads alternating, "
+        "at least one call during which another thread started or finished a call, messages of two and more blocks, and (pure-Python "
+        "configurations) the tap on the bundled implementation reached from the threads; the number of threads, of digests, of "
+        "thread changes between consecutive completions and of interleaved calls is written to the samples / notes of the evidence. "
         "Non-trivial: every case (the empty input is a padding boundary); distinct by (operation, configuration, input / program).")
 ASSUMPTIONS = [
     "hashlib SHA-256 is correct; RIPEMD-160 oracle is hashlib/OpenSSL when present, cross-checked on every run against the "
@@ -64,6 +78,10 @@ ASSUMPTIONS = [
     "AttributeError (method not offered) or refuses a non-bytes argument fed nothing; after any other exception from update(), or "
     "an accepted non-bytes argument, that object is no longer judged; whatever the caller does with such an object has no "
     "influence on any other call",
+    "'for every input' holds whichever thread of a process makes the call and whatever other threads are hashing meanwhile: the "
+    "hash functions are functions of their argument, so N threads each hashing its own byte strings (and adding to its own Bloom "
+    "filter) must each get the standard digests / the BIP37 bits; nothing is demanded of an object two threads use at once "
+    "(no filter, buffer or hash object is shared between the threads of the workload)",
     "a Bloom filter announces filter_load_params(); an element added while (hash_function_count, tweak) had some value must set "
     "exactly the BIP37 positions for those values (the values a peer is told if the filter is loaded then); when a public "
     "attribute cannot be assigned (exception) or a deliberately invalid add does not raise, the history is dropped, not judged",
@@ -76,7 +94,9 @@ EXPLANATION = ("every digest / hash / filter returned by pycoin is compared byte
                "native digests themselves are required and judged; "
                "in a history the "
                "reference is evaluated on a snapshot of the caller's buffer taken just before each call and a Bloom model "
-               "(one bit set per filter) follows every step")
+               "(one bit set per filter) follows every step; in the threaded shards a wrong answer is repeated alone after join to "
+               "name the mechanism (only_when_called_concurrently / and_when_called_alone), and a witness is replayed by running the "
+               "whole threaded workload of that configuration again")
 TIMEOUT = {"quick": 600, "thorough": 3 * 3600}
 
 ENV_PY = {"PYCOIN_USE_PYTHON_RIPEMD160": "1"}
@@ -118,6 +138,14 @@ def plan(tier, seed):
     nlong = (1 << 16) + 100 if q else (1 << 17) + 100
     shards.append({"kind": "longrun", "config": "native", "env": {}, "n": nlong, "part": 0, "label": "longrun-native"})
     shards.append({"kind": "longrun", "config": "python", "env": dict(ENV_PY), "n": nlong, "part": 0, "label": "longrun-python"})
+    # several threads of one process hashing at the same time, one shard per RIPEMD-160 configuration (murmur3 and one Bloom
+    # filter per thread ride in the native one)
+    for cfg, env in (("native", {}), ("python", ENV_PY), ("sim_no_native", {})):
+        nat = cfg == "native"
+        shards.append({"kind": "threads", "config": cfg, "env": dict(env), "threads": 6 if q else 8,
+                       "n_msgs": (300 if q else 4000) if nat else (80 if q else 1200), "rounds": 3 if nat else 2,
+                       "max_blocks": 8 if nat else 4, "bloom": nat, "n_bloom": 60 if q else 600, "part": 0,
+                       "label": "threads-%s" % cfg})
     return shards
 
 
@@ -1252,6 +1280,220 @@ def run_longrun(spec, rec):
     rec.case(("longrun", "bloom", N), n=i + 1)
 
 
+# -- several threads of one process -----------------------------------------------------------
+
+_THREAD_SWITCH_INTERVAL = 1e-5            # seconds; CPython's default is 5e-3
+_THREAD_BOUNDARY = (0, 1, 54, 55, 56, 57, 62, 63)
+
+
+def _thread_messages(rng, tid, n, max_blocks):
+    """n byte strings no other thread (and no other index) has: 3-byte (thread, index) prefix, random rest; lengths as hash160 /
+    ripemd160 meet them (20, 32, 33, 65) and across the padding boundaries of 1..max_blocks blocks."""
+    out = []
+    for j in range(n):
+        r = rng.random()
+        if r < 0.3:
+            L = rng.choice([20, 32, 33, 65])
+        elif r < 0.8:
+            L = max(4, 64 * rng.randrange(0, max_blocks) + rng.choice(_THREAD_BOUNDARY))
+        else:
+            L = rng.randrange(4, 64 * max_blocks)
+        out.append((bytes([tid]) + j.to_bytes(2, "little") + _rb(rng, L))[:L])
+    return out
+
+
+def _thread_mech(base, got_again, exp):
+    """Mechanism key of a wrong answer obtained beside other threads: does the same call, repeated alone afterwards, agree?"""
+    return base + (".only_when_called_concurrently" if got_again == exp else ".and_when_called_alone")
+
+
+def run_threads(spec, rec):
+    """N threads of ONE process call the hash primitives at the same time, each on byte strings (and a Bloom filter) of its
+    own; nothing is shared between the callers.  Expected values come from the references, computed before a thread exists;
+    the threads only store what pycoin returned; the verdict (digests / hashes / filter bytes only, no timing) is made after join."""
+    import itertools
+    import sys
+    import threading
+    cfg, T, n_msgs, rounds = spec["config"], int(spec["threads"]), int(spec["n_msgs"]), int(spec["rounds"])
+    max_blocks = int(spec["max_blocks"])
+    with_bloom = bool(spec.get("bloom"))
+    req = ["threads:%s:%s" % (cfg, op) for op in ("hash160", "double_sha256", "ripemd160(data).digest()", "contrib.ripemd160.ripemd160")]
+    req += ["threads:%s:digests_returned_while_other_threads_were_hashing" % cfg, "threads:%s:call_interleaved_with_calls_of_other_threads" % cfg,
+            "threads:%s:messages_of_2_or_more_blocks" % cfg]
+    if with_bloom:
+        req += ["threads:murmur3", "threads:BloomFilter.one_filter_per_thread"]
+    rec.require(*req)
+    M = _imports(cfg, rec)
+    if M is None:
+        return
+    if cfg in ("python", "sim_no_native"):
+        rec.require("threads:%s:tap:contrib.ripemd160.reached_from_threads" % cfg)
+    B = _bloom_imports(rec) if with_bloom else None
+    rng = shard_rng(spec["seed"], PROPERTY, spec["tier"], spec["shard"])
+    fns = {"hash160": M.hash.hash160, "double_sha256": M.hash.double_sha256,
+           "ripemd160(data).digest()": lambda d: M.hash.ripemd160(d).digest(), "contrib.ripemd160.ripemd160": M.contrib_direct}
+    refs = {"hash160": RR.hash160, "double_sha256": RR.double_sha256, "ripemd160(data).digest()": RR.digest,
+            "contrib.ripemd160.ripemd160": RR.digest}
+    ops = list(fns)
+    base_case = {"kind": "threads", "config": cfg, "threads": T, "n_msgs": n_msgs, "rounds": rounds, "max_blocks": max_blocks,
+                 "bloom": with_bloom, "n_bloom": int(spec.get("n_bloom", 0)), "seed": spec["seed"], "tier": spec["tier"], "shard": spec["shard"]}
+    # everything the threads need is made here, single-threaded: messages, expected digests, Bloom elements and filters
+    msgs = [_thread_messages(rng, t, n_msgs, max_blocks) for t in range(T)]
+    if len({m for w in msgs for m in w}) != T * n_msgs:
+        rec.ev("inconclusive:threads.messages_not_unique")
+        rec.note("threads: the generator promised distinct messages and did not deliver")
+        return
+    expect = [[{op: refs[op](d) for op in ops} for d in w] for w in msgs]
+    for w in msgs:
+        for d in w:
+            if len(d) >= 56:
+                rec.ev("threads:%s:messages_of_2_or_more_blocks" % cfg)
+    bloom = None
+    if with_bloom:
+        bloom = []
+        for t in range(T):
+            size, k, tweak = rng.choice([1, 3, 64, 500, 36000]), rng.choice([1, 2, 5, 11, 50]), rng.choice(SEEDS + [rng.getrandbits(32)])
+            items = []
+            for j in range(int(spec["n_bloom"])):
+                how = ("item", "hash160", "spendable")[j % 3]
+                if how == "spendable":
+                    e, idx = _rb(rng, 32), rng.choice([0, 1, 255, 65535, (1 << 32) - 1, rng.getrandbits(32)])
+                    arg, elem = B.Spendable(coin_value=1, script=b"\x51", tx_hash=e, tx_out_index=idx), e + idx.to_bytes(4, "little")
+                else:
+                    elem = bytes([t]) + j.to_bytes(2, "little") + _rb(rng, 17 if how == "hash160" else rng.choice([0, 1, 2, 3, 30, 33, 62]))
+                    arg = elem
+                items.append((how, arg, elem, rng.choice(SEEDS + [rng.getrandbits(32), rng.getrandbits(70)])))
+            s_, bf = observe(B.bloom.BloomFilter, size, k, tweak)
+            if s_ != "ok":
+                rec.violation("bloom.constructor_raises", dict(base_case, op="bloom", size=size, count=k, tweak=tweak), bf, "filter")
+                return
+            bloom.append({"size": size, "k": k, "tweak": tweak, "items": items, "filter": bf,
+                          "mseeds": [rng.choice(SEEDS + [rng.getrandbits(32), rng.getrandbits(70)]) for _ in range(n_msgs)]})
+    results = [[] for _ in range(T)]
+    order = []                                    # thread id at every completed call, in completion order (list.append is atomic)
+    ticks = itertools.count()                      # next() is atomic: a call during which the counter moved by more than 1 was interleaved
+    barrier = threading.Barrier(T)
+    crashed = []
+
+    def worker(t):
+        out, mine, done, tick = results[t], msgs[t], order.append, ticks.__next__
+        try:
+            barrier.wait()
+            for rnd in range(rounds):
+                for j in range(n_msgs):
+                    d = mine[(j + rnd * 7) % n_msgs]
+                    for op in (ops if (j + rnd) % 2 == 0 else ops[::-1]):
+                        if skip_contrib and op == "contrib.ripemd160.ripemd160" and j % 4:
+                            continue              # where it is not the implementation in use, the bundled one (0.3 ms a block) every 4th message
+                        t0 = tick()
+                        r = observe(fns[op], d)
+                        out.append(("d", (j + rnd * 7) % n_msgs, op, r, tick() - t0))
+                        done(t)
+            if bloom is None:
+                return
+            # second phase: every thread in murmur3 / in its own Bloom filter at the same time
+            barrier.wait()
+            items, bf, mseeds = bloom[t]["items"], bloom[t]["filter"], bloom[t]["mseeds"]
+            for j in range(n_msgs):
+                t0 = tick()
+                r = observe(B.bloom.murmur3, mine[j], mseeds[j])
+                out.append(("M", j, "murmur3", r, tick() - t0))
+                done(t)
+                if j < len(items):
+                    how, arg, elem, mseed = items[j]
+                    t0 = tick()
+                    r = observe(B.bloom.murmur3, elem, mseed)
+                    out.append(("m", j, "murmur3", r, tick() - t0))
+                    done(t)
+                    t0 = tick()
+                    r = observe(getattr(bf, "add_" + how), arg)
+                    out.append(("b", j, "add_" + how, r, tick() - t0))
+                    done(t)
+        except BaseException as e:                 # noqa - a harness fault, reported as such below
+            crashed.append((t, repr(e)))
+
+    skip_contrib = M.impl == "native"
+    tap0 = M.tap[0]
+    threads = [threading.Thread(target=worker, args=(t,), name="c19-%d" % t) for t in range(T)]
+    old = sys.getswitchinterval()
+    sys.setswitchinterval(_THREAD_SWITCH_INTERVAL)
+    try:
+        for th in threads:
+            th.start()
+        for th in threads:
+            th.join()
+    finally:
+        sys.setswitchinterval(old)
+    if crashed or abs(sys.getswitchinterval() - old) > 1e-6:
+        rec.ev("inconclusive:threads.worker_thread_failed")
+        rec.note("threads[%s]: worker thread(s) stopped outside the observed calls: %r" % (cfg, crashed[:3]))
+        return
+    # ---- verdict, single-threaded again ----
+    switches = sum(1 for i in range(1, len(order)) if order[i] != order[i - 1])
+    interleaved = sum(1 for out in results for r in out if r[4] > 1)
+    ncalls = sum(len(out) for out in results)
+    if M.tap[0] > tap0:
+        rec.ev("threads:%s:tap:contrib.ripemd160.reached_from_threads" % cfg, M.tap[0] - tap0)
+    if switches >= T and len(set(order[:len(order) // 2])) > 1:
+        rec.ev("threads:%s:digests_returned_while_other_threads_were_hashing" % cfg, switches)
+    if interleaved:
+        rec.ev("threads:%s:call_interleaved_with_calls_of_other_threads" % cfg, interleaved)
+    nbad, wrong = {}, 0
+    for t in range(T):
+        for what, j, op, (st, got), _ in results[t]:
+            if what == "d":
+                d, exp = msgs[t][j], expect[t][j][op]
+                rec.ev("threads:%s:%s" % (cfg, op))
+                good = st == "ok" and _eqb(got, exp)
+                key = {"hash160": "threads.hash160.%s.mismatch" % cfg, "double_sha256": "threads.double_sha256.mismatch",
+                       "ripemd160(data).digest()": "threads.ripemd160.%s.mismatch" % cfg,
+                       "contrib.ripemd160.ripemd160": "threads.contrib_ripemd160.mismatch"}[op]
+                again = lambda: observe(fns[op], d)      # noqa
+                case = dict(base_case, op=op, thread=t, data=d)
+            elif what in ("m", "M"):
+                d, mseed = (bloom[t]["items"][j][2], bloom[t]["items"][j][3]) if what == "m" else (msgs[t][j], bloom[t]["mseeds"][j])
+                exp = RM.murmur3_32(d, mseed & 0xffffffff)
+                rec.ev("threads:murmur3")
+                good = st == "ok" and got == exp and not isinstance(got, bool)
+                key = "threads.murmur3.mismatch"
+                again = lambda: observe(B.bloom.murmur3, d, mseed)      # noqa
+                case = dict(base_case, op=op, thread=t, data=d, mseed=mseed)
+            else:
+                if st != "ok":                        # an element BIP37 can hold, added to the thread's own filter, must be accepted
+                    wrong += 1
+                    if nbad.setdefault("b", 0) < 3:
+                        rec.violation("threads.bloom.add_raises", dict(base_case, op=op, thread=t, element=bloom[t]["items"][j][2]), got, None)
+                    nbad["b"] += 1
+                continue
+            if not good:
+                wrong += 1
+                if nbad.setdefault(op, 0) < 3:
+                    s2, g2 = again()
+                    g2 = bytes(g2) if s2 == "ok" and isinstance(g2, (bytes, bytearray, memoryview)) else (g2 if s2 == "ok" else None)
+                    rec.violation(_thread_mech(key, g2, exp), case, got, exp)
+                nbad[op] += 1
+        rec.case(("threads", cfg, t, spec["seed"], spec["shard"]), n=len(results[t]))
+    if bloom is not None:
+        for t in range(T):
+            b = bloom[t]
+            rec.ev("threads:BloomFilter.one_filter_per_thread")
+            exp = RM.bip37_filter([it[2] for it in b["items"][:n_msgs]], b["size"], b["k"], b["tweak"] & 0xffffffff)
+            s_, fb = observe(lambda: bytes(b["filter"].filter_bytes))
+            if s_ != "ok" or fb != exp:
+                wrong += 1
+                rec.violation("threads.bloom.own_filter.bits_mismatch",
+                              dict(base_case, op="bloom", thread=t, size=b["size"], count=b["k"], tweak=b["tweak"]), fb if s_ == "ok" else fb, exp)
+    rec.sample({"op": "hash primitives called from several threads of one process", "config": cfg, "impl_in_use": M.impl,
+                "threads": T, "switch_interval_s": _THREAD_SWITCH_INTERVAL, "calls_observed": ncalls,
+                "digests_compared": sum(1 for out in results for r in out if r[0] == "d"),
+                "completions_following_a_completion_of_another_thread": switches,
+                "calls_during_which_another_thread_started_or_finished_a_call": interleaved,
+                "answers_differing_from_reference": wrong})
+    rec.note("threads[%s]: %d threads, %d calls (%d digests), %d thread changes between consecutive completions, %d calls "
+             "interleaved with calls of other threads, %d answers differing from the reference"
+             % (cfg, T, ncalls, sum(1 for out in results for r in out if r[0] == "d"), switches, interleaved, wrong))
+
+
 # ---------------------------------------------------------------------------------------------
 
 def _bloom_imports(rec):
@@ -1301,6 +1543,8 @@ def run_shard(spec, rec):
             _note_native_tap(rec, M)
     elif kind == "longrun":
         run_longrun(spec, rec)
+    elif kind == "threads":
+        run_threads(spec, rec)
     elif kind == "murmur":
         rec.require("murmur3", "murmur3.default_seed", "murmur3.seed_wider_than_32_bits", "murmur3.seed_top_bit_set",
                     "murmur3.seed_31_bits", "murmur3.no_full_block.seed_wider_than_32_bits", "murmur3.input_65536_bytes_or_more",
@@ -1348,6 +1592,9 @@ def replay_case(case, rec):
         # the fault depends on the number of operations made before: run the whole long-run workload of that configuration again
         run_longrun({"config": case.get("config", "native"), "n": max(int(case.get("call", case.get("add", 0))) + 200, (1 << 16) + 100),
                      "seed": 0, "tier": "quick", "shard": 0}, rec)
+    elif kind == "threads":
+        # the fault needs the other threads: run the whole threaded workload of that configuration again (same generator state)
+        run_threads({k: case[k] for k in ("config", "threads", "n_msgs", "rounds", "max_blocks", "bloom", "n_bloom", "seed", "tier", "shard")}, rec)
     elif kind == "murmur":
         M = _bloom_imports(rec)
         check_murmur(_fix(case), int(case["seed"]), rec, M)
